@@ -121,8 +121,12 @@ func checkC19(c c19Case) (out Outcome, err error) {
 		if e != nil {
 			return out, violation("new-refuses", "fft.New(%d) refused: %v", N, e)
 		}
-		for _, inverse := range []bool{false, true} {
+		for k := 0; k < 4; k++ {
+			inverse := k&1 == 1
 			x := make([]complex128, c.Arg)
+			if k >= 2 { // the wrong-length slice is a window of a larger buffer (spare capacity beyond its length, as buf[:m] has)
+				x = make([]complex128, c.Arg, max(c.Arg, N)+N)
+			}
 			for i := range x {
 				x[i] = complex(float64(i+1), 0)
 			}
